@@ -1,20 +1,23 @@
 (* C09 — Bytecode optimisation never changes what a template renders.
-   Structural half (this file, first three theorems) and behavioural half (simulation on the
-   abstract VM, Proofs/OptimizeSim.v). *)
-From TeraV Require Import Model.Value Model.Instr Model.Optimize Proofs.OptimizeProofs.
+   Statements only; proofs in Proofs/OptimizeProofs.v (structure) and Proofs/OptimizeSim.v
+   (behaviour, on an abstract VM with arbitrary semantics for every instruction the pass does
+   not touch). *)
+From TeraV Require Import Model.Value Model.Instr Model.Optimize Proofs.OptimizeProofs Proofs.OptimizeSim.
 Local Open Scope nat_scope.
 
-(* For every chunk without fused instructions whose jump targets are <= its length:
+(* STRUCTURE. For every chunk without fused instructions whose jump targets are <= its length:
    optimize succeeds (no out-of-bounds index_map access); expanding every LoadPath/WritePath of
    the result gives back the original instruction sequence, jumps re-pointed to the group that
    starts exactly at their old target; every jump target (and one-past-the-end) is the first
-   instruction of its group, i.e. no merged group contains an instruction some jump targets. *)
+   instruction of its group, i.e. no merged group contains an instruction some jump targets;
+   fused instructions never start with the context-dump variable. *)
 Theorem C09_optimize_structure : forall p,
   unfused p -> targets_in_range p ->
   exists o, optimize p = Some o /\
     Forall2 (rel (map fst o)) (expand (map fst o)) (map fst p) /\
     (forall t, t <= length p -> (t = length p \/ is_jump_target p t = true) -> is_start (map fst o) t) /\
-    length (expand (map fst o)) = length p.
+    length (expand (map fst o)) = length p /\
+    (forall g, In g (map fst o) -> is_fused g = true -> fused_shape g).
 Proof. exact optimize_structure. Qed.
 
 (* index_map[t] is the new index of the group starting at t *)
@@ -22,13 +25,62 @@ Theorem C09_index_map_at_group_start : forall o olen n,
   n <= length o -> nth_error (imap_of olen o) (group_start o n) = Some (olen + n).
 Proof. exact imap_at_start. Qed.
 
-(* the two hypotheses are decidable and are evaluated on every real chunk by Corr/CorrC09.v *)
+(* BEHAVIOUR. Same final stack and opaque state (output, captures, variables), related loop
+   frames, failure on one side iff failure on the other — for every abstract VM, every chunk
+   meeting the three decidable side conditions, every state. *)
+Theorem C09_optimize_correct :
+  forall (V S : Type) (undef : V) (is_undef : V -> bool), is_undef undef = true ->
+  forall (get_value : S -> str -> V) (dump : S -> V) (get_attr : V -> str -> option V),
+  (forall v a, is_undef v = true -> get_attr v a = None) ->
+  forall (write : V -> S -> option S) (truthy : V -> bool) (is_over : S -> bool)
+         (advance : S -> bool -> S) (other : instr -> list V -> S -> option (list V * S))
+         (p : chunk),
+  unfused p -> targets_in_range p -> iterate_forward (map fst p) ->
+  exists o, optimize p = Some o /\
+    let runP := run V S undef is_undef get_value dump get_attr write truthy is_over advance other in
+    let P := map fst p in let O := map fst o in
+    forall st ends ends' s, ends_rel O ends ends' ->
+      (forall fuel, runP fuel P 0 st ends s <> OutOfFuel V S ->
+         exists fuel', out_rel V S O (runP fuel P 0 st ends s) (runP fuel' O 0 st ends' s)) /\
+      (forall fuel', runP fuel' O 0 st ends' s <> OutOfFuel V S ->
+         exists fuel, out_rel V S O (runP fuel P 0 st ends s) (runP fuel' O 0 st ends' s)).
+Proof. exact optimize_correct. Qed.
+
+(* the core equivalences: one fused instruction = the chain it replaces *)
+Theorem C09_load_path_equiv :
+  forall (V S : Type) (undef : V) (is_undef : V -> bool), is_undef undef = true ->
+  forall (get_value : S -> str -> V) (dump : S -> V) (get_attr : V -> str -> option V) s n attrs,
+  is_magic n = false ->
+  load_path V S undef is_undef get_value dump get_attr s (n :: attrs)
+  = chain V undef is_undef get_attr (load_name V S get_value dump s n) attrs.
+Proof. intros. apply load_path_chain; assumption. Qed.
+
+Theorem C09_write_path_equiv :
+  forall (V S : Type) (undef : V) (is_undef : V -> bool), is_undef undef = true ->
+  forall (get_value : S -> str -> V) (dump : S -> V) (get_attr : V -> str -> option V),
+  (forall v a, is_undef v = true -> get_attr v a = None) ->
+  forall (write : V -> S -> option S) s n attrs,
+  is_magic n = false ->
+  write_path V S is_undef get_value dump get_attr write s (n :: attrs)
+  = match chain V undef is_undef get_attr (load_name V S get_value dump s n) attrs with
+    | Some v => if is_undef v then None else write v s
+    | None => None
+    end.
+Proof. intros. apply write_path_chain; assumption. Qed.
+
+(* the side conditions are decidable and are evaluated on every real chunk by Corr/CorrC09.v *)
 Theorem C09_hypotheses_decidable : forall p,
-  unfusedb p = true -> targets_in_rangeb p = true -> unfused p /\ targets_in_range p.
-Proof. intros p H1 H2. split; [exact (unfusedb_ok p H1)|exact (targets_in_rangeb_ok p H2)]. Qed.
+  unfusedb p = true -> targets_in_rangeb p = true -> iterate_forwardb (map fst p) = true ->
+  unfused p /\ targets_in_range p /\ iterate_forward (map fst p).
+Proof.
+  intros p H1 H2 H3. split; [exact (unfusedb_ok p H1)|split].
+  - exact (targets_in_rangeb_ok p H2).
+  - exact (iterate_forwardb_ok _ H3).
+Qed.
 
 Print Assumptions C09_optimize_structure.
-Print Assumptions C09_index_map_at_group_start.
+Print Assumptions C09_optimize_correct.
+Print Assumptions C09_write_path_equiv.
 
 (* non-vacuity: `{{ false and user.name }}` — the WriteTop is a jump target and is not fused *)
 Example C09_ex_short_circuit :
@@ -42,3 +94,13 @@ Example C09_ex_write_path :
   optimize [(LoadName [117%N], [1%N]); (LoadAttr [110%N], [2%N]); (WriteTop, [3%N]); (Jump 0, [])]
   = Some [(WritePath [[117%N]; [110%N]], [1%N; 2%N]); (Jump 0, [])].
 Proof. vm_compute. reflexivity. Qed.
+
+(* a loop with a fused body satisfies all three side conditions *)
+Example C09_ex_hypotheses :
+  let p := [(LoadName [97%N], []); (LoadAttr [120%N], []); (StartIterate false, []); (StoreLocal [105%N], []);
+            (Iterate 9, []); (LoadName [105%N], []); (LoadAttr [121%N], []); (WriteTop, []); (Jump 4, []);
+            (PopLoop, [])] in
+  unfusedb p = true /\ targets_in_rangeb p = true /\ iterate_forwardb (map fst p) = true /\
+  optimize p = Some [(LoadPath [[97%N]; [120%N]], []); (StartIterate false, []); (StoreLocal [105%N], []);
+                     (Iterate 6, []); (WritePath [[105%N]; [121%N]], []); (Jump 3, []); (PopLoop, [])].
+Proof. vm_compute. repeat split. Qed.
